@@ -108,7 +108,7 @@ class CXX2C(Emitter, ExprMixin, LibMixin, StmtMixin):
         for e in self.enum_defs.values(): L += e
         for oc, q in sorted(self.opaque.items()):
             L.append('typedef struct { int id; } %s; /* opaque: %s */' % (oc, q))
-        for r_cn in sorted({t for t in self.opaque_records()}):
+        for r_cn in sorted({t for t in self.opaque_records(types)}):
             L.append('typedef struct { int id; } %s; /* opaque record */' % r_cn)
         L += types
         for s in self.statics.values():
@@ -142,9 +142,9 @@ class CXX2C(Emitter, ExprMixin, LibMixin, StmtMixin):
             return '{ static %s ghost_result_; %s fresh_; ghost_result_ = fresh_; return &ghost_result_; }' % (base, base)
         return '{ %s nondet_result_; return nondet_result_; }' % rt
 
-    def opaque_records(self):
+    def opaque_records(self, types=()):
         out = set()
-        for line in list(self.autostubs.values()) + list(self.protos.values()) + list(self.bodies.values()):
+        for line in list(self.autostubs.values()) + list(self.protos.values()) + list(self.bodies.values()) + list(types) + [x for x in self.statics.values() if x]:
             for m in re.findall(r'\bopq_\w+', line): out.add(m)
         return out - set(self.opaque.keys()) - set(self.autostubs.keys()) - set(self.bodies.keys())
 
